@@ -3,13 +3,15 @@ package c34
 import (
 	"os"
 	"runtime/pprof"
-	"time"
+
+	"verifmc/engine/events"
 )
 
-func init() {
-	if p := os.Getenv("VERIF_C34_PROF"); p != "" {
-		f, _ := os.Create(p)
-		pprof.StartCPUProfile(f)
-		go func() { time.Sleep(5 * time.Second); pprof.StopCPUProfile(); f.Close() }()
+func profTick() {}
+
+func leakCheck() {
+	if os.Getenv("VERIF_C34_DUMP") != "" && events.Goroutines() > 5 {
+		pprof.Lookup("goroutine").WriteTo(os.Stderr, 1)
+		os.Exit(3)
 	}
 }
